@@ -131,11 +131,14 @@ OpsC02 ==   \* client / redirect / lifetime binding; smuggled parameters; grant 
 Verifiers == {"none", "right", "wrong", "short", "long", "illegal", "other"}
 OpsC03 ==   \* PKCE: every sequence of attempts on a code
   (IF CanAuthz THEN {Authz(c, rt, <<"offline", "a">>, <<"offline", "a">>, <<>>, "sent", pk) :
-        c \in {"A", "P"}, rt \in {"code", "code_token"}, pk \in {"none", "S256", "plain", "plain_nm", "plain_short", "s256lc"}} ELSE {})
+        c \in {"A", "P"}, rt \in {"code", "code_token"}, pk \in {"none", "S256", "plain", "plain_nm", "plain_short", "s256lc"}}
+        \cup {AuthzIll("A", "code", <<"offline", "a">>, <<"offline", "a">>, <<>>, "sent", pk, ill) :
+                 pk \in {"S256_ill", "plain_ill"}, ill \in {"bang", "bracket", "caret", "backtick", "backslash", "space", "plus"}} ELSE {})
   \cup (IF CanMint THEN {Redeem(Owner(k), "ok", k, "same", v, <<>>, <<>>) : k \in Codes, v \in Verifiers} ELSE {})
 
 OpsC04 ==   \* rotation and reuse over several grants of different origin
-  (IF CanAuthz THEN {Authz("A", rt, Full, Full, <<>>, "sent", "none") : rt \in {"code", "code_token"}} ELSE {})
+  (IF CanAuthz THEN {Authz("A", rt, Full, Full, <<>>, "sent", "none") : rt \in {"code", "code_token"}}
+                    \cup {Authz("P", "code", Full, Full, <<>>, "sent", "none")} ELSE {})        \* a public client's grant: nobody authenticates on reuse
   \cup (IF CanMint THEN {Redeem(Owner(k), "ok", k, "same", "none", <<>>, <<>>) : k \in {x \in Codes : st.S.code[x].active}} ELSE {})
   \cup (IF CanMint THEN {Password("B", "ok", "ok", <<"offline", "a">>, <<>>)} ELSE {})
   \cup (IF CanMint /\ Count(st.S.dev) < MaxDev THEN {DevStart("P", "ok", Full, Full, <<>>)} ELSE {})
